@@ -15,6 +15,7 @@ def normTerms : List (Int × Int) → Int → List (Int × Int) × Int
       if c < 0 then
         let r := normTerms ts (v + (-c))
         ((-c, -l) :: r.1, r.2)
+      else if c = 0 then normTerms ts v     -- terms with coefficient zero are dropped
       else
         let r := normTerms ts v
         ((c, l) :: r.1, r.2)
